@@ -6,6 +6,9 @@ ids = [json.loads(l)['id'] for l in open(os.path.join(ROOT, 'properties.jsonl'))
 TECH = 'bounded symbolic execution of the clang-14 LLVM IR of the real sources (own path-forking executor, engine S), assertions and branch feasibility decided by z3; counterexamples replayed on the g++ build'
 NOTE = 'Trusted: clang-14 -O1 lowering, engine S (validated on every run by concrete differential runs against the native build), z3, the environment models listed in the evidence (operator new/delete never fail; libstdc++ out-of-line functions modelled). Nothing is claimed outside the bounds recorded in the evidence.'
 CLAIMED = {
+ 'C01': ('4 C01', 'Two requests to every type constructor over address-sorted operand pools, long and short request forms chosen symbolically; mixed-constructor histories; normal forms with a symbolic linkage spelling; products/sums through warehouses and caller-owned sequences with symbolic lengths: same node <=> same canonical arguments on every path. Tree shapes under longer histories are C08.'),
+ 'C03': ('4 C03', 'Interning histories of words with fully symbolic bytes (all 256 values) and boundary lengths, symbolic hash values; pool roll-over and oversize paths with the cursor placed near the pool end; arena arithmetic for symbolic lengths; reserved-word binary search vs linear scan for one fully symbolic word up to 18 bytes.'),
+ 'C04': ('4 C04', 'Two requests (and request/other/request histories) to every name and atom constructor, String- and word-keyed, make_ and get_ forms; two symbolic spellings for word-keyed constructors; one fully symbolic word up to 18 bytes against every Identifier reachable through the Lexicon.'),
  'C10': ('4 C10', 'Singletons and named accessors exhaustively; inverse pair decompose(union S)=S for every subset on sliding windows (quick 3x2^6 x2 backgrounds, thorough all 2^18) and all 2^3 qualifier subsets; | & ^ implies and the per-bit membership lemma with operands symbolic over all 64 bits (single z3 queries); unknown names refused for a symbolic non-basic word.'),
  'C11': ('4 C11', 'Empty set refused for a fully symbolic 64-bit qualifier set; three nested qualification requests with symbolic non-empty sets over picked base types: main variant never qualified, result is the node of the union, independent of order/grouping.'),
  'C13': ('4 C13', 'All 26+5+2 constants exhaustively (spelling, self-description, 325 distinct pairs, two Lexicons) and the spelling->node routes for one fully symbolic word of up to 18 bytes (every reserved word and every near miss is inside the symbolic space).'),
